@@ -156,8 +156,10 @@ def masked_array(data, mask=np.ma.nomask, fill_value=None, **kwargs):
 
 def _set_fill_value(x, fill_value):
     if isinstance(x, np.ma.masked_array):
-        x = x.copy()
-        np.ma.set_fill_value(x, fill_value=fill_value)
+        # ``x.copy()`` shares the 0-d array that holds the fill value with ``x`` and
+        # ``np.ma.set_fill_value`` writes into it in place, which would change the
+        # input block as well: build a new masked array with its own fill value
+        x = np.ma.masked_array(x, fill_value=fill_value, copy=True)
     return x
 
 
